@@ -12,13 +12,50 @@ EXPLANATION = ("R16.1 name derivation (FileSpec::as_pathbuf / fixed_name_part) r
                "timestamp, no discriminant; R16.6 every created log file is as_pathbuf of the configured spec (open-flag table); R16.7 the directory is "
                "created and checked before the state is built. R16.8 the predicate of the listing agrees with the naming: whole-function tables of the directory listing and of filter_files (shared with R14.2). R16.9 after every rotation the path stored in the active state is the path of the file that is open (shared with R01.4). R16.10 builder invariant: every builder method storing a rotation configuration or a file spec applies the `no start time by default` rule to the file spec that ends up stored."
                " R16.11 (shared with R06.3): one timestamp format per logger - helpers naming files at start get the format stored in the naming state. R16.6 also: the stored path of the opened file is the configured path itself, not a resolved variant."
-               " R16.12 naming wiring: file spec, symlink, use_utc and Naming configured on Logger / FileLogWriterBuilder reach the writer's configuration unchanged; use_utc reaches file names and record clock together (shared configuration-wiring tables, rules/cfgwiring.py).")
+               " R16.12 naming wiring: file spec, symlink, use_utc and Naming configured on Logger / FileLogWriterBuilder reach the writer's configuration unchanged; use_utc reaches file names and record clock together (shared configuration-wiring tables, rules/cfgwiring.py)."
+               " R16.13 the directory scan behind existing_log_files runs with the state lock held on every call chain from the public query (rotation renames and re-creates the current file under that lock), so a listing is consistent with one state of the writer.")
 ASSUMPTIONS = ["Path/PathBuf semantics of std", "the start-time text is never empty"]
 NOT_DECIDED = ["Path semantics of the OS", "that existing_log_files equals the directory content for every history", "symlink resolution"]
 FLOORS = {'R16.2': 2, 'R16.3': 2, 'R16.4': 1, 'R16.5': 1}
 
 
+def listing_under_lock(R, ctx, rule='R16.13'):
+    """existing_log_files answers from a directory scan; rotation renames rCURRENT and re-creates it while holding the state lock.  The scan therefore runs
+    with that lock held on every call chain from the public query - otherwise a listing taken during a rotation omits the current file or shows a set of
+    files that never existed together (the listing no longer agrees with what the writer produced)."""
+    f, cg, la = ctx.f, ctx.cg, ctx.locks
+    entry = ctx.body(r'^writers::file_log_writer::FileLogWriter::existing_log_files$')
+    pred = lambda n, t: n == 'std::fs::read_dir'
+    STATE = 'file_log_writer::state::State'
+    bad = []
+    nsites = 0
+    seen = set()
+
+    def walk(path, held, chain):
+        nonlocal nsites
+        if (path, held) in seen or path not in f.bodies:
+            return
+        seen.add((path, held))
+        b = f.bodies[path]
+        for (bb, callee, kind) in cg.call_sites_reaching(b, pred):
+            now = held or any(STATE in h for h in la.must_held_local(path, bb))
+            if callee not in f.bodies:
+                nsites += 1
+                if not now:
+                    bad.append((chain + [path], b.loc(bb)))
+            else:
+                walk(callee, now, chain + [path])
+    walk(entry.path, False, [])
+    if nsites < 1:
+        raise CheckError(f"{rule}: no directory scan reachable from FileLogWriter::existing_log_files")
+    R.check(rule, f"{entry.path}|scan-under-state-lock", not bad, f"{nsites} read_dir site(s) on the chains from the public query, all with Mutex<State> held",
+            "existing_log_files scans the log directory without holding the state lock (chain " + (' -> '.join(x.split('::')[-1] for x in bad[0][0]) if bad else '') +
+            "): a listing taken while another thread rotates omits rCURRENT / returns files that never existed together", where=bad[0][1] if bad else entry.loc())
+
+
 def run(R, ctx):
+    R.rule('R16.13', 'MUST-HOLD(state lock, directory scan of existing_log_files)')
+    listing_under_lock(R, ctx)
     R.rule('R16.12', "naming wiring: file spec, symlink, use_utc and Naming configured on Logger / FileLogWriterBuilder reach the writer's configuration unchanged; use_utc reaches file names and record clock together")
     import cfgwiring
     cfgwiring.config_wiring(R, ctx, 'R16.12', 'C16')
